@@ -222,3 +222,9 @@ _proof("C08", ["EdVerif.Props.C08"], "Proved: Bytes = 32 LE bytes of the value i
 PROPS["C03"]["modules"] = ["EdVerif.Props.Structural.Ct", "EdVerif.Props.Structural.CtExact", "EdVerif.Props.Structural.WellFormed", "EdVerif.Props.C20"]
 for _pid in ("C11", "C14", "C15", "C18", "C19"):
     PROPS[_pid]["modules"] = PROPS[_pid]["modules"] + ["EdVerif.Props.Structural.WellFormed", "EdVerif.Props.Structural.ProvLabels"]
+
+# dependency families (see check.py): field layer under every point-level property, scalar layer under scalar multiplication
+for _pid in ("C02", "C04", "C05", "C06", "C12", "C13", "C17"):
+    PROPS[_pid]["deps"] = ["C09", "C10", "C16"] if _pid in ("C04", "C05") else ["C09", "C10"]
+PROPS["C01"]["deps"] = ["C09", "C10", "C07", "C08"]
+PROPS["C16"]["deps"] = ["C09", "C10"]
